@@ -1208,7 +1208,7 @@ class Trimesh(Geometry3D):
 
         # create the inverse mask if not passed
         if inverse is None:
-            if mask.dtype.kind in "bi" and util.is_shape(self.faces, (-1, 3)):
+            if mask.dtype.kind in "biu" and util.is_shape(self.faces, (-1, 3)):
                 # a face referencing a vertex that is being removed can't
                 # be re-indexed: drop it rather than pointing it at vertex 0
                 kept = np.zeros(len(self.vertices), dtype=bool)
@@ -1219,7 +1219,7 @@ class Trimesh(Geometry3D):
             inverse = np.zeros(len(self.vertices), dtype=int64)
             if mask.dtype.kind == "b":
                 inverse[mask] = np.arange(mask.sum())
-            elif mask.dtype.kind == "i":
+            elif mask.dtype.kind in "iu":
                 inverse[mask] = np.arange(len(mask))
             else:
                 inverse = None
